@@ -3,10 +3,13 @@
    example.  Definitions: Model/Forward.v (transcription of Trace and trace_operations.rs:
    `trun seed prog` runs a program with the variable instruction `seed` as Trace::variable and all
    other inputs as Trace::constant), Spec/FormalD.v (`value`, `grad`), Model/AD.v (reverse mode),
-   Proofs/C05P.v (`nonzero_denominators`), Proofs/C04R.v (`Rops`, `dom`, `set_var`). *)
+   Proofs/C05P.v (`nonzero_denominators`), Proofs/C04R.v (`Rops`, `dom`, `set_var`).
+   Session 3 added (clause audit: notes/C04_C05.md): Proofs/C05X.v -- the whole gradient by seeding
+   every variable in turn = the reverse-mode entries, independent inputs give 0; Proofs/C05XI.v --
+   the analytic theorem over `Rops_i` / `dom_i` (Proofs/C04RI.v: natural-number powers at any base). *)
 From Coq Require Import List Arith ZArith Reals Bool.
 From EasyML Require Import Base.Sx Model.Num Model.Tape Model.AD Model.Forward Spec.FormalD
-  Proofs.C04P Proofs.C04R Proofs.C05P.
+  Proofs.C04P Proofs.C04R Proofs.C04RI Proofs.C05P Proofs.C05X Proofs.C05XI.
 Import ListNotations.
 
 (* the number component of every trace is the same computation on plain numbers *)
@@ -51,6 +54,37 @@ Theorem C05_forward_mode_is_true_derivative : forall prog i x0 out,
                    (tderivative (gett Rops (trun Rops i prog) out)).
 Proof. exact forward_mode_is_true_derivative. Qed.
 
+(* ---- extension round (session 3), Proofs/C05X.v ---- *)
+
+(* the WHOLE gradient at once: seeding every variable instruction of the program in turn gives
+   exactly the list of entries Derivatives::at reports for those variables in reverse mode (all
+   zeros when the output is a constant); every program, every output *)
+Theorem C05_gradient_by_seeding : forall R (ops : numops R), is_field ops ->
+  forall (prog : list (instr R)) out, nonzero_denominators ops prog ->
+  let forward := map (fun s => tderivative (gett ops (trun ops s prog) out)) (var_nodes prog) in
+  match try_derivatives ops (run_prog ops prog) out with
+  | Some d => forward = map (fun s => at_ ops d (getr ops (fst (run_prog ops prog)) s)) (var_nodes prog)
+  | None => forward = map (fun _ => nzero ops) (var_nodes prog)
+  end.
+Proof. exact @gradient_by_seeding. Qed.
+
+(* seeding an input the output does not (syntactically) depend on -- e.g. one created after it --
+   gives derivative component exactly zero *)
+Theorem C05_independent_zero : forall R (ops : numops R), is_field ops ->
+  forall (prog : list (instr R)) seed out, nonzero_denominators ops prog ->
+  nth out (depends_on prog seed) false = false ->
+  tderivative (gett ops (trun ops seed prog) out) = nzero ops.
+Proof. exact @forward_independent_zero. Qed.
+
+(* integer powers at any base (see Properties/C04.v, Proofs/C04RI.v): over `Rops_i` (rpow x n = x^n for
+   a natural number n at ANY base) the derivative component is the true derivative inside `dom_i`,
+   which admits trace ^ number at a negative or zero base for natural-number exponents *)
+Theorem C05_forward_mode_is_true_derivative_ipow : forall prog i x0 out,
+  nth_error prog i = Some (IVar x0) -> dom_i prog ->
+  derivable_pt_lim (fun t => tnumber (gett Rops_i (trun Rops_i i (set_var prog i t)) out)) x0
+                   (tderivative (gett Rops_i (trun Rops_i i prog) out)).
+Proof. exact forward_mode_is_true_derivative_i. Qed.
+
 (* non-vacuity: the reals are a field instance; (x / y) * x + 7 / y at x = 2, y = 3 has non-zero
    denominators, lies in the domain, and seeding x gives 2x/y = 4/3, seeding y gives
    -(x^2 + 7)/y^2 = -11/9 *)
@@ -74,3 +108,6 @@ Print Assumptions C05_derivative_is_gradient.
 Print Assumptions C05_forward_equals_reverse.
 Print Assumptions C05_number_operand_is_constant_trace.
 Print Assumptions C05_forward_mode_is_true_derivative.
+Print Assumptions C05_gradient_by_seeding.
+Print Assumptions C05_independent_zero.
+Print Assumptions C05_forward_mode_is_true_derivative_ipow.
